@@ -35,6 +35,13 @@ if [ -z "$PFX" ]; then
   for k in 1 2 3 4 5 6 7 8 9 10; do
     run "refactor-$k" "${props[$k]}" "$ROOT/seeded/_correct_refactors/$k/patch.diff" 0
   done
+  # second set of negative controls (seeded/_correct_refactors2/README.md)
+  props2=(x C05 C05 C05 C06 C06 "C03 C06" C03 C13 C13 C18 C18 C19)
+  for k in 1 2 3 4 5 6 7 8 9 10 11 12; do
+    for pr in ${props2[$k]}; do
+      run "refactor2-$k" "$pr" "$ROOT/seeded/_correct_refactors2/$k/patch.diff" 0
+    done
+  done
 fi
 echo "sweep finished: $([ $bad = 0 ] && echo all as expected || echo SOME UNEXPECTED)"
 exit $bad
